@@ -134,6 +134,44 @@ Lemma exec_call_arg_err n x rest c st err st1 :
   exec x c st = (err, st1) -> not_ok err -> exec (AFunc n (x :: rest)) c st = (err, st1).
 Proof. intros H N. cbn [Eval.exec]. rewrite H. destruct err; try reflexivity. exfalso. eapply N. reflexivity. Qed.
 
+(* the element / entry loops of a list and a map hand back, as an error, only what is not a value *)
+Lemma list_go_err_not_ok c : forall l s e s', (fix go (l : list ast) (st : state) {struct l} : (eres + list value) * state :=
+       match l with
+       | [] => (inr [], st)
+       | x :: r => match exec x c st with
+                   | (EOk v, st1) => match go r st1 with (inr vs, st2) => (inr (v :: vs), st2) | other => other end
+                   | (err, st1) => (inl err, st1)
+                   end
+       end) l s = (inl e, s') -> not_ok e.
+Proof.
+  induction l as [|y r IH]; intros s e s' E; [discriminate E|].
+  destruct (exec y c s) as [[w| | | | |] s1] eqn:Ey; try (inversion E; subst; intros w0 Hw; discriminate Hw).
+  match type of E with context [(fix go (l : list ast) (st : state) {struct l} := _) r s1] =>
+    destruct ((fix go (l : list ast) (st : state) {struct l} := _) r s1) as [[e1|vs] s2] eqn:Eg end; [|discriminate E].
+  inversion E; subst. exact (IH _ _ _ Eg).
+Qed.
+Lemma map_go_err_not_ok c : forall l s e s', (fix go (l : list (ast * ast)) (st : state) {struct l} : (eres + list (value * value)) * state :=
+       match l with
+       | [] => (inr [], st)
+       | (k, v) :: r =>
+           match exec k c st with
+           | (EOk kv, st1) =>
+               match exec v c st1 with
+               | (EOk vv, st2) => match go r st2 with (inr rest, st3) => (inr ((kv, vv) :: rest), st3) | other => other end
+               | (err, st2) => (inl err, st2)
+               end
+           | (err, st1) => (inl err, st1)
+           end
+       end) l s = (inl e, s') -> not_ok e.
+Proof.
+  induction l as [|[k y] r IH]; intros s e s' E; [discriminate E|].
+  destruct (exec k c s) as [[w| | | | |] s1] eqn:Ek; try (inversion E; subst; intros w0 Hw; discriminate Hw).
+  destruct (exec y c s1) as [[w2| | | | |] s2] eqn:Ey; try (inversion E; subst; intros w0 Hw; discriminate Hw).
+  match type of E with context [(fix go (l : list (ast * ast)) (st : state) {struct l} := _) r s2] =>
+    destruct ((fix go (l : list (ast * ast)) (st : state) {struct l} := _) r s2) as [[e1|m] s3] eqn:Eg end; [|discriminate E].
+  inversion E; subst. exact (IH _ _ _ Eg).
+Qed.
+
 End E.
 
 (** registries: the last registration of a name wins; other names are unaffected *)
@@ -147,4 +185,14 @@ Qed.
 Lemma assoc_app_first {A} n (l1 l2 : list (str * A)) v : assoc n l1 = Some v -> assoc n (l1 ++ l2) = Some v.
 Proof.
   induction l1 as [|[k x] l1 IH]; cbn [assoc app]; [discriminate|]. destruct (str_eqb n k); auto.
+Qed.
+
+(** a list / map with one more element in front is nested at least as deep *)
+Lemma vbounded_cons_list v ws : vbounded (VList ws) = false -> vbounded (VList (v :: ws)) = false.
+Proof.
+  unfold vbounded. cbn [vdepth]. intros H. apply N.leb_gt in H. apply N.leb_gt. lia.
+Qed.
+Lemma vbounded_cons_map k v m : vbounded (VMap m) = false -> vbounded (VMap ((k, v) :: m)) = false.
+Proof.
+  unfold vbounded. cbn [vdepth]. intros H. apply N.leb_gt in H. apply N.leb_gt. lia.
 Qed.
